@@ -14,7 +14,8 @@
 //!   payload  text kinds: hex | image: `~`/hex | key-value: hex=hex | table: `.` no rows, rows `|`-joined,
 //!            a row is `_` (no cells) or `:`-joined hex cells
 //! Answer: `.` (no chunks) or `#`-joined `<heading ~|hex>!<oversized 0|1>!<token_estimate>!<text() hex>!<elements>`
-//!   (elements in the request syntax). `nondeterministic` when two runs of the same call differ.
+//!   (elements in the request syntax). `nondeterministic` when two runs of the same call differ
+//!   (the second run uses a different `overlap_tokens`, which the chunker must ignore).
 use oxidize_pdf::pipeline::{
     ContextFormat, ContextMode, Element, ElementBBox, ElementData, ElementGraph, ElementMetadata,
     HybridChunkConfig, HybridChunker, ImageElementData, KeyValueElementData, MergePolicy,
@@ -194,7 +195,7 @@ fn show_elem(e: &Element) -> String {
     )
 }
 
-fn run_once(req: &str) -> String {
+fn run_once(req: &str, overlap_tokens: usize) -> String {
     let f: Vec<&str> = req.split(' ').collect();
     if f.len() != 8 {
         return "bad-request".into();
@@ -220,7 +221,7 @@ fn run_once(req: &str) -> String {
     };
     let config = HybridChunkConfig {
         max_tokens,
-        overlap_tokens: 50,
+        overlap_tokens,
         merge_adjacent,
         propagate_headings,
         merge_policy,
@@ -255,8 +256,16 @@ fn run_once(req: &str) -> String {
 }
 
 fn run(req: &str) -> String {
-    let a = run_once(req);
-    let b = run_once(req);
+    // second run: same request, a different `overlap_tokens` (documented as ignored: chunks are
+    // element-disjoint) — derived from the request so that 0, small and huge values all occur
+    let other = match req.len() % 4 {
+        0 => 0,
+        1 => 1,
+        2 => 7,
+        _ => usize::MAX,
+    };
+    let a = run_once(req, 50);
+    let b = run_once(req, other);
     if a != b {
         return "nondeterministic".into();
     }
